@@ -78,6 +78,15 @@ def concretise(beh, rich):
     return ''.join(out)
 
 
+def concretise_twins(beh):
+    """every unit has the same title and the same body: sections that are equal as trees but distinct as nodes"""
+    out = ['\\documentclass{article}\n\\begin{document}\nstart text\n\n']
+    for n in beh['nodes'] or []:
+        out.append('\\%s{Intro}\nsame text\n\n' % ['section', 'subsection', 'subsubsection'][n['lvl'] - 1])
+    out.append('\\end{document}\n')
+    return ''.join(out)
+
+
 def split_href(href, base):
     if base and href.startswith(base.rstrip('/') + '/'):
         href = href[len(base.rstrip('/')) + 1:]
@@ -142,8 +151,8 @@ def numstr(n):
 
 def replay_one(job):
     beh, variant = job
-    rich = variant != 'pure'
-    src = concretise(beh, rich)
+    rich = variant not in ('pure', 'twins')
+    src = concretise_twins(beh) if variant == 'twins' else concretise(beh, rich)
     ov = c13.overrides(beh)
     ov[('document', 'sec-num-depth')] = 3        # every unit of the grammar is numbered (deeper units have no number to show: `??`)
     renderer = 'HTML5'
@@ -198,7 +207,7 @@ def replay_one(job):
             bad.append(('ref-href:' + r['kind'], 'reference rr%d links to %s, specification %s %s' % (k + 1, m.group(1), want, ctx)))
         if m.group(2) != shown:
             bad.append(('ref-number:' + r['kind'], 'reference rr%d shows %r, the number of its target is %s %s' % (k + 1, m.group(2), shown, ctx)))
-    if variant in ('pure', 'baseurl', 'baseurl2', 'toc1', 'toc0', 'tocnonfiles', 'extras'):
+    if variant in ('pure', 'twins', 'baseurl', 'baseurl2', 'toc1', 'toc0', 'tocnonfiles', 'extras'):
         nfiles = len(beh['files'])
         for j, f in enumerate(beh['files']):
             fn = c13.name_of(f['name']) + '.html'
@@ -337,6 +346,16 @@ def run(chk):
         pool = pool[n3:] or pool
     for b in (withref[:12] if tier == 'quick' else withref[:150]):
         jobs.append((b, 'extras'))
+    # units that are equal as trees (same title, same body, no label) but distinct as nodes: navigation must tell them apart
+    rtw = tlc.run('Split', cfg_text=CFG % (3 if tier == 'quick' else 4, '"default", "plain"', 0, '"none"'), timeout=3400, heap='8g')
+    chk.add_tlc(rtw, 'links-emit(unlabelled units)')
+    behs_tw = rtw.beh
+    tw = [b for b in behs_tw if len(b['nodes']) >= 3 and not b['refs'] and not b['docfn'] and b['tmpl'] in ('default', 'plain')
+          and all(n['lab'] == 'none' and not n['fn'] and n['title'] == 'Intro' for n in b['nodes'])]
+    tw += [b for b in rs.beh if len(b['nodes']) >= 3 and not b['refs'] and not b['docfn'] and b['tmpl'] in ('default', 'plain')
+           and all(n['lab'] == 'none' and not n['fn'] and n['title'] == 'Intro' for n in b['nodes'])]
+    for b in tw[:300 if tier == 'quick' else 3000]:
+        jobs.append((b, 'twins'))
     results = pmap(replay_one, jobs, chunksize=10)
     for (beh, variant), res in zip(jobs, results):
         key = [beh['nodes'], beh['docfn'], beh['split'], beh['tmpl'], beh['refs'], variant]
